@@ -219,93 +219,104 @@ class AsyncSocks5Connection(AsyncConnectionInterface):
         sni_hostname = request.extensions.get("sni_hostname", None)
         timeout = timeouts.get("connect", None)
 
-        async with self._connect_lock:
-            if self._connection is None:
-                if self._connect_failed:
-                    # Another request failed to establish this connection while we
-                    # were waiting, and the pool has dropped it.
-                    raise ConnectionNotAvailable()
-                stream: AsyncNetworkStream | None = None
-                try:
-                    # Connect to the proxy
-                    kwargs = {
-                        "host": self._proxy_origin.host.decode("ascii"),
-                        "port": self._proxy_origin.port,
-                        "timeout": timeout,
-                    }
-                    async with Trace("connect_tcp", logger, request, kwargs) as trace:
-                        stream = await self._network_backend.connect_tcp(**kwargs)
-                        trace.return_value = stream
-
-                    # Connect to the remote host using socks5
-                    kwargs = {
-                        "stream": stream,
-                        "host": self._remote_origin.host.decode("ascii"),
-                        "port": self._remote_origin.port,
-                        "auth": self._proxy_auth,
-                        "timeout": timeout,
-                    }
-                    async with Trace(
-                        "setup_socks5_connection", logger, request, kwargs
-                    ) as trace:
-                        with map_exceptions({socksio.ProtocolError: ProxyError}):
-                            await _init_socks5_connection(**kwargs)
-                        trace.return_value = stream
-
-                    # Upgrade the stream to SSL
-                    if self._remote_origin.scheme in (b"https", b"wss"):
-                        ssl_context = (
-                            default_ssl_context()
-                            if self._ssl_context is None
-                            else self._ssl_context
-                        )
-                        alpn_protocols = (
-                            ["http/1.1", "h2"] if self._http2 else ["http/1.1"]
-                        )
-                        ssl_context.set_alpn_protocols(alpn_protocols)
-
+        try:
+            async with self._connect_lock:
+                if self._connection is None:
+                    if self._connect_failed:
+                        # Another request failed to establish this connection while we
+                        # were waiting, and the pool has dropped it.
+                        raise ConnectionNotAvailable()
+                    stream: AsyncNetworkStream | None = None
+                    try:
+                        # Connect to the proxy
                         kwargs = {
-                            "ssl_context": ssl_context,
-                            "server_hostname": sni_hostname
-                            or self._remote_origin.host.decode("ascii"),
+                            "host": self._proxy_origin.host.decode("ascii"),
+                            "port": self._proxy_origin.port,
                             "timeout": timeout,
                         }
-                        async with Trace("start_tls", logger, request, kwargs) as trace:
-                            stream = await stream.start_tls(**kwargs)
+                        async with Trace("connect_tcp", logger, request, kwargs) as trace:
+                            stream = await self._network_backend.connect_tcp(**kwargs)
                             trace.return_value = stream
 
-                    # Determine if we should be using HTTP/1.1 or HTTP/2
-                    ssl_object = stream.get_extra_info("ssl_object")
-                    http2_negotiated = (
-                        ssl_object is not None
-                        and ssl_object.selected_alpn_protocol() == "h2"
-                    )
+                        # Connect to the remote host using socks5
+                        kwargs = {
+                            "stream": stream,
+                            "host": self._remote_origin.host.decode("ascii"),
+                            "port": self._remote_origin.port,
+                            "auth": self._proxy_auth,
+                            "timeout": timeout,
+                        }
+                        async with Trace(
+                            "setup_socks5_connection", logger, request, kwargs
+                        ) as trace:
+                            with map_exceptions({socksio.ProtocolError: ProxyError}):
+                                await _init_socks5_connection(**kwargs)
+                            trace.return_value = stream
 
-                    # Create the HTTP/1.1 or HTTP/2 connection
-                    if http2_negotiated or (
-                        self._http2 and not self._http1
-                    ):  # pragma: nocover
-                        from .http2 import AsyncHTTP2Connection
+                        # Upgrade the stream to SSL
+                        if self._remote_origin.scheme in (b"https", b"wss"):
+                            ssl_context = (
+                                default_ssl_context()
+                                if self._ssl_context is None
+                                else self._ssl_context
+                            )
+                            alpn_protocols = (
+                                ["http/1.1", "h2"] if self._http2 else ["http/1.1"]
+                            )
+                            ssl_context.set_alpn_protocols(alpn_protocols)
 
-                        self._connection = AsyncHTTP2Connection(
-                            origin=self._remote_origin,
-                            stream=stream,
-                            keepalive_expiry=self._keepalive_expiry,
+                            kwargs = {
+                                "ssl_context": ssl_context,
+                                "server_hostname": sni_hostname
+                                or self._remote_origin.host.decode("ascii"),
+                                "timeout": timeout,
+                            }
+                            async with Trace("start_tls", logger, request, kwargs) as trace:
+                                stream = await stream.start_tls(**kwargs)
+                                trace.return_value = stream
+
+                        if self._connect_failed:
+                            # A request that was waiting for this connection has
+                            # been cancelled in the meantime, and the pool has
+                            # dropped it.
+                            raise ConnectionNotAvailable()
+
+                        # Determine if we should be using HTTP/1.1 or HTTP/2
+                        ssl_object = stream.get_extra_info("ssl_object")
+                        http2_negotiated = (
+                            ssl_object is not None
+                            and ssl_object.selected_alpn_protocol() == "h2"
                         )
-                    else:
-                        self._connection = AsyncHTTP11Connection(
-                            origin=self._remote_origin,
-                            stream=stream,
-                            keepalive_expiry=self._keepalive_expiry,
-                        )
-                except BaseException as exc:
-                    self._connect_failed = True
-                    if stream is not None:
-                        with AsyncShieldCancellation():
-                            await stream.aclose()
-                    raise exc
-            elif not self._connection.is_available():  # pragma: nocover
-                raise ConnectionNotAvailable()
+
+                        # Create the HTTP/1.1 or HTTP/2 connection
+                        if http2_negotiated or (
+                            self._http2 and not self._http1
+                        ):  # pragma: nocover
+                            from .http2 import AsyncHTTP2Connection
+
+                            self._connection = AsyncHTTP2Connection(
+                                origin=self._remote_origin,
+                                stream=stream,
+                                keepalive_expiry=self._keepalive_expiry,
+                            )
+                        else:
+                            self._connection = AsyncHTTP11Connection(
+                                origin=self._remote_origin,
+                                stream=stream,
+                                keepalive_expiry=self._keepalive_expiry,
+                            )
+                    except BaseException as exc:
+                        self._connect_failed = True
+                        if stream is not None:
+                            with AsyncShieldCancellation():
+                                await stream.aclose()
+                        raise exc
+                elif not self._connection.is_available():  # pragma: nocover
+                    raise ConnectionNotAvailable()
+        except BaseException:
+            if self._connection is None:
+                self._connect_failed = True
+            raise
 
         return await self._connection.handle_async_request(request)
 
